@@ -365,7 +365,8 @@ def dist(
         if p.dim > 2:
             r = p._plane.project(q)
             return np.where(p.contains(r), dist(r, q), result)
-        return result
+        # points of the polygon (not only of its boundary) have distance zero, as in the 3D case
+        return np.where(p.contains(q), 0, result)
     if isinstance(p, PointTensor) and isinstance(q, Polyhedron):
         return dist(q, p)
     if isinstance(p, Polyhedron) and isinstance(q, PointTensor):
